@@ -181,6 +181,35 @@ _amend("C14", "text", "(R14.1-R14.4,", "(R14.1-R14.5,")
 _amend("C19", "text", "(R19.1-R19.9,", "(R19.1-R19.10,")
 _amend("C20", "text", "(R20.1-R20.6", "(R20.1-R20.7")
 
+# fifth pass
+_amend("C01", "text", "(R01.1-R01.17,", "(R01.1-R01.18,")
+_amend("C01", "text", "Decides seventeen structural", "Decides eighteen structural")
+_amend("C01", "text", "and the ends-in-a-jump analysis looks through blocks only. Does not decide", "the ends-in-a-jump analysis looks through blocks only, two evaluations are merged into one only for plain variables, and an assignment is folded into a `var` statement only for a `var`-declared name. Does not decide")
+_amend("C03", "text", "(R03.1-R03.5, DESIGN.md §4 C03):", "(R03.1-R03.7, DESIGN.md §4 C03):")
+_amend("C03", "text", "Decides five local clauses", "Decides seven local clauses")
+_amend("C03", "text", "The trait tables are decided under C17.", "The value of an <input> is dropped only when it equals what the control has without it; attribute values are minified as a media type only for the attributes that hold one. The trait tables are decided under C17.")
+_amend("C04", "tech", "default-clause and write-every-element checks", "default-clause and write-every-element checks, position/distance typing of index arithmetic (linear terms), scratch-buffer alias analysis, consumed-length use of numeric parses")
+_amend("C04", "text", "(R04.1-R04.4, DESIGN.md §4 C04):", "(R04.1-R04.8, DESIGN.md §4 C04):")
+_amend("C04", "text", "Decides four structural clauses only", "Decides eight structural clauses only")
+_amend("C04", "text", "(custom-property values, strings and URLs stay byte-identical). ", "(custom-property values, strings and URLs stay byte-identical); an index into the value list is a position, not a distance; a scratch buffer is not handed out twice while its first content is still referenced; a numeric parse whose consumed length is ignored does not stand for the whole token; a remembered deletion index is not reused after the list changed (= R10.5). ")
+_amend("C05", "text", "(R05.1-R05.12,", "(R05.1-R05.14,")
+_amend("C07", "text", "(R07.1-R07.7, DESIGN.md §4 C07):", "(R07.1-R07.11, DESIGN.md §4 C07):")
+_amend("C07", "text", "numeric equality as such is not de", "the byte that restores the leading zero is added only after a test of the saved input (never longer); numeric equality as such is not de")
+_amend("C07", "text", "(R07.4-R07.7 = R08.3-R08.6)", "(R07.4-R07.10 = R08.3-R08.9)")
+_amend("C08", "tech", "bounded-before-use path rule for the precision parameter", "bounded-before-use path rule for the precision parameter, guard-before-move/guard-before-write rule for the parsed exponent, linear-inequality entailment (dominating branch outcomes + reaching definitions) for the rounding index, stale-scan-cursor liveness rule")
+_amend("C08", "text", "(R08.1-R08.6,", "(R08.1-R08.9,")
+_amend("C08", "text", "Decides six shape clauses only", "Decides nine shape clauses only")
+_amend("C09", "text", "(R09.1, R09.3-R09.6, DESIGN.md §4 C09):", "(R09.1, R09.3-R09.8, DESIGN.md §4 C09):")
+_amend("C09", "text", "Decides five printer disciplines", "Decides seven printer disciplines")
+_amend("C10", "text", "(R10.1-R10.6,", "(R10.1-R10.8,")
+_amend("C10", "text", "Decides six structural clauses", "Decides eight structural clauses")
+_amend("C12", "text", "(R12.1-R12.6,", "(R12.1-R12.7,")
+_amend("C14", "text", "(R14.1-R14.5,", "(R14.1-R14.6,")
+_amend("C16", "text", "(R16.1-R16.4,", "(R16.1-R16.5,")
+_amend("C16", "text", "Decides four structural clauses", "Decides five structural clauses")
+_amend("C19", "text", "(R19.1-R19.10,", "(R19.1-R19.12,")
+_amend("C20", "text", "(R20.1-R20.7", "(R20.1-R20.8")
+
 
 NOT_APPLICABLE = {
  "C18": "DataURI/Mediatype correctness is about decoded byte values and length comparisons between encodings; no structural clause separates a right "
